@@ -6,6 +6,9 @@
   default argument values are mutable objects (cells that persist between calls).
     * `mutable_defaults_known`: that list contains nothing beyond three read-only defaults (checked
       read-only at run time by the module-state snapshot of the harness);
+    * `no_shared_state_writes`: `Gen.sharedStateWrites` — every statement inside a function of the package that
+      assigns to an attribute of a class object (`Configuration.DT_CONT = …`), calls `setattr` on a class, or
+      declares a `global` — is empty (seeded change C11-clamp-writes-class-attribute makes it non-empty);
     * `graph_default_not_mutable`: in particular not `get_output_graph_data`, the accumulator of the
       graph sets;
     * `history_independent`, `world_unchanged`: with that fact, in the model of the service's
@@ -30,6 +33,9 @@ def readOnlyDefaults : List String :=
 
 /-- No function of the library has a mutable default argument other than three that are only read. -/
 theorem mutable_defaults_known : ∀ f ∈ Gen.mutableDefaults, f ∈ readOnlyDefaults := by decide
+
+/-- No function of the library writes to a class attribute or to a module-level name. -/
+theorem no_shared_state_writes : Gen.sharedStateWrites = [] := by decide
 
 theorem graph_default_not_mutable : Drive.graphDefaultMutable = false := by decide
 
